@@ -8,6 +8,8 @@ import (
 	"fmt"
 	"os"
 	"strconv"
+
+	_ "github.com/berquerant/crd/zz_verif/models" // keeps the model package in every harness build
 )
 
 type replayFile struct {
